@@ -22,6 +22,7 @@ import sympy as sp
 from bsa import f64fold, guards, logic, paths, sym, vecint
 from bsa.hir import Missing, callee, peel, place, pp, walk
 from bsa.hir import pat_binds as hir_pat_binds
+from rules import quadmodel as QM
 from rules import c07
 from rules import polyint as PI
 
@@ -267,215 +268,183 @@ def check_romberg(F, run, tier):
                       "Romberg with %d rows is not exact on x^%d" % (n, k), sample="n=%d exact on x^%d" % (n, k))
 
 
-class GaussLoop(guards.GInterp):
-    """One iteration of a Gaussian driver with the quadrature sum abstracted to the symbol AREA."""
-    def ev_MCall(self, n):
-        if n["name"] in ("fold", "sum"):
-            return sp.Symbol("AREA", real=True)
-        return guards.GInterp.ev_MCall(self, n)
-
-
 def check_stop_rule(F, run):
-    drivers = ["integrate::gaussian::integrate_gaussian_core", "integrate::gaussian::integrate_laguerre", "integrate::gaussian::integrate_hermite",
-               "integrate::gaussian::integrate_chebyshev", "integrate::gaussian::integrate_chebyshev_second"]
-    A, PA, PE, T = sp.Symbol("AREA", real=True), S("prev_area"), S("prev_err"), S("tol")
-    for path in drivers:
+    """R9.5 — the two-consecutive-agreements rule of the five Gaussian drivers, on the paths of the *whole* driver over a synthetic table of four
+    one-pair rules (quadmodel): with A_k the value of rule k (A_0 = 0) and D_k = |A_k − A_(k−1)|, every path either returns Ok(A_k) for the
+    first k with D_k < tol and D_(k−1) < tol — never for k = 1, whatever the tolerance — or Err after the last rule."""
+    drivers = [("integrate::gaussian::integrate_gaussian_core", "integrate::tables::WEIGHTS_LEGENDRE"), ("integrate::gaussian::integrate_laguerre", "integrate::tables::WEIGHTS_LAGUERRE"),
+               ("integrate::gaussian::integrate_hermite", "integrate::tables::WEIGHTS_HERMITE"), ("integrate::gaussian::integrate_chebyshev", "integrate::tables::WEIGHTS_CHEBYSHEV"),
+               ("integrate::gaussian::integrate_chebyshev_second", "integrate::tables::WEIGHTS_CHEBYSHEV_SECOND")]
+    K = 4
+    T = QM.TOLS
+    for path, table in drivers:
         b = F.fn(path)
         run.analysed(b)
-        st, loop = guards.first_loop(b)
-        if loop is None or loop.get("k") != "For":
-            run.broken("R9.5", path, "loop", F.loc(b), "no table loop")
-            continue
+        where = F.loc(b)
+        short = path.split("::")[-1]
+        pairs = [QM.pair("r%d_" % k) for k in range(1, K + 1)]
+        allsyms = [x for pr in pairs for x in pr]
+        # generic rules: a test on a pair alone (the centre-node test) takes its `false` side — the centre node is C10's business
+        force = lambda c: (False if QM.is_pair_cond(c, allsyms) else None)
         try:
-            lps = paths.explore(F, b, setup=c07.preset_all(b, {}), node=loop["body"], interp_cls=GaussLoop)
-        except sym.Unsupported as u:
-            run.broken("R9.5", path, "iteration", F.loc(b, loop), str(u))
+            ps = QM.explore(F, b, [sp.Symbol("userfn"), T], {table: [[pr] for pr in pairs]}, force=force)
+            one = QM.explore(F, b, [sp.Symbol("userfn"), T], {table: [[pairs[0]], [pairs[0]]]}, force=force)
+        except vecint.IndexPanic as e:
+            run.fail("R9.5", path, "panic", where, "abstract execution panics: %s" % e.why)
             continue
-        okp = False
-        contp = False
-        for p in lps:
+        except (sym.Unsupported, vecint.Budget) as u:
+            run.broken("R9.5", path, "execution", F.loc(b, u.node if isinstance(getattr(u, "node", None), dict) else None), str(u))
+            continue
+        # the value of one rule as a function of its pair: from the run over twice the same rule
+        vals = [p.result.args[0] for p in one if guards.is_ok(p.result)]
+        if not vals:
+            run.fail("R9.5", path, "success=two-consecutive-agreements", where, "two identical consecutive rules do not make the driver return Ok")
+            continue
+        v1 = vals[0]
+        A = [sp.Integer(0)] + [v1.subs({pairs[0][0]: pr[0], pairs[0][1]: pr[1]}, simultaneous=True) for pr in pairs]
+        D = [None] + [sp.Abs(A[k] - A[k - 1]) for k in range(1, K + 1)]
+
+        def agrees(p, k):
+            """polarity of the literal D_k < tol on the path (None: never asked)."""
+            for l in p.pc:
+                atom, pol = QM.split(l)
+                if isinstance(atom, sp.Lt) and QM.same(atom.rhs, T) and QM.same(atom.lhs, D[k]):
+                    return pol
+            return None
+        n_ok = n_err = 0
+        for p in ps:
+            tag = "[%s]" % ",".join("%s%s" % ("" if QM.split(l)[1] else "!", "D%s<tol" % next((k for k in range(1, K + 1) if agrees_lit(l, D, k, T)), "?")) for l in p.pc)
+            unknown = [l for l in p.pc if not any(agrees_lit(l, D, k, T) for k in range(1, K + 1))]
+            if unknown:
+                run.broken("R9.5", path, "literal", where, "a path of %s branches on %s, which is not a comparison of a difference of consecutive rule values with tol" % (short, str(unknown[0])[:160]))
+                continue
             if guards.is_ok(p.result):
-                cond = p.cond()
-                want = sp.And(sp.Abs(A - PA) < T, PE < T)
-                from bsa import logic
-                good = p.result.args[0] == A and logic.entails(cond, sp.Lt(sp.Abs(A - PA), T)) and logic.entails(cond, sp.Lt(PE, T))
-                run.check(good, "R9.5", path, "success=two-consecutive-agreements", F.loc(b, loop),
-                          "Ok is returned under [%s] with value %s; expected the current area when |area − prev| < tol and prev_err < tol" % (cond, p.result.args[0]),
-                          sample="%s: Ok(area) iff err < tol && prev_err < tol" % path.split("::")[-1])
-                okp = True
-            elif p.fell_through:
-                cur = {nm: p.interp.env.get(i) for i, nm in p.interp.names.items() if nm in ("prev_area", "prev_err")}
-                good = cur.get("prev_area") == A and sym.is_zero(cur.get("prev_err") - sp.Abs(A - PA))
-                run.check(good, "R9.5", path, "carries-state", F.loc(b, loop), "after a non-converged rule prev_area/prev_err are %s, expected (area, |area − prev_area|)" % cur)
-                contp = True
-        run.check(okp and contp, "R9.5", path, "both-outcomes", F.loc(b, loop), "the loop body has no success path or no continue path")
-        # the first rule has nothing to agree with: the initial prev_err must not already count as an agreement (for every positive tolerance)
-        try:
-            pre = paths.explore(F, b, setup=c07.preset_all(b, {"tol": sp.Symbol("tol", positive=True)}), stop_at=st, interp_cls=GaussLoop)
-            e0s = []
-            for p0 in pre:
-                if p0.fell_through:
-                    e0s.append({nm: p0.interp.env.get(i) for i, nm in p0.interp.names.items()}.get("prev_err"))
-            Tp = sp.Symbol("tol", positive=True)
-            good0 = bool(e0s) and all(e0 is not None and logic.entails(sp.true, sp.Ge(sp.simplify(e0 - Tp), 0)) for e0 in e0s)
-            run.check(good0, "R9.5", path, "first-rule-cannot-succeed", F.loc(b),
-                      "prev_err starts as %s: not >= tol for every positive tolerance, so the two-consecutive-agreements test can pass on the first rule alone "
-                      "(one evaluation; e.g. Ok(0) for an integrand that vanishes at the midpoint)" % (e0s,), sample="%s: initial prev_err >= tol" % path.split("::")[-1])
-        except sym.Unsupported as u:
-            run.broken("R9.5", path, "initial-state", F.loc(b), str(u))
-        tail = peel(b["body"].get("expr") or {})
-        run.check(tail.get("k") == "Call" and (callee(tail) or "").endswith("Err"), "R9.5", path, "exhausted-gives-err", F.loc(b), "exhausting the table does not return Err")
+                n_ok += 1
+                ks = [k for k in range(1, K + 1) if QM.same(p.result.args[0], A[k])]
+                k = ks[-1] if ks else None
+                good = k is not None and k >= 2 and agrees(p, k) is True and agrees(p, k - 1) is True
+                if k == 1:
+                    run.fail("R9.5", path, "first-rule-cannot-succeed", where,
+                             "the driver returns Ok after the first rule alone under %s (one evaluation of the rule sequence; e.g. Ok(0) for an integrand that vanishes at the nodes): "
+                             "the initial error does not block the two-consecutive-agreements test for every positive tolerance" % tag)
+                    continue
+                run.check(good, "R9.5", path, "success=two-consecutive-agreements", where,
+                          "Ok(%s) is returned under %s; expected the value of rule k only when |A_k − A_(k−1)| < tol and |A_(k−1) − A_(k−2)| < tol" % (str(p.result.args[0])[:80], tag),
+                          sample="%s: Ok(A_k) iff D_k < tol && D_(k-1) < tol" % short)
+                # ... and the first such k: no earlier double agreement was passed over
+                early = [j for j in range(2, (k or 2)) if agrees(p, j) is True and agrees(p, j - 1) is True]
+                run.check(not early, "R9.5", path, "carries-state", where, "under %s rules %s and %s already agreed twice but the driver went on to rule %s" % (tag, early[:1], early[:1], k))
+            elif guards.is_err(p.result):
+                n_err += 1
+                # exhausted: no k had two agreements, and every difference was examined (the error and the previous area are carried from rule to rule)
+                twice = [k for k in range(2, K + 1) if agrees(p, k) is True and agrees(p, k - 1) is True]
+                run.check(not twice, "R9.5", path, "carries-state", where, "Err is returned under %s although rules %s agree twice in a row" % (tag, twice[:1]))
+                # consistency of the carried error: D_k is consulted as `prev_err` at k+1 only if it was computed from consecutive rules — a stale prev_area shows as an unknown literal
+            else:
+                run.fail("R9.5", path, "exhausted-gives-err", where, "a path of the driver ends with %r" % (p.result,))
+        run.check(n_ok >= 1 and n_err >= 1, "R9.5", path, "both-outcomes", where, "the driver has no success path or no exhaustion path over %d rules (%d Ok, %d Err)" % (K, n_ok, n_err))
+        # completeness: every pattern of agreements is decided as the reference decides it
+        want_ok = want_err = 0
+        import itertools
+        for pat in itertools.product([True, False], repeat=K):
+            first = next((k for k in range(2, K + 1) if pat[k - 1] and pat[k - 2]), None)
+            # the path that this pattern follows: literals asked are a subset; find a path consistent with the pattern
+            cons = [p for p in ps if all(agrees(p, k) in (None, pat[k - 1]) for k in range(1, K + 1))]
+            if len(cons) != 1:
+                run.fail("R9.5", path, "deterministic", where, "%d paths are consistent with the agreement pattern %s" % (len(cons), pat))
+                continue
+            p = cons[0]
+            if first is None:
+                want_err += 1
+                run.check(guards.is_err(p.result), "R9.5", path, "exhausted-gives-err", where, "no two consecutive agreements in %s, but the driver returns %s" % (pat, str(p.result)[:80]))
+            else:
+                want_ok += 1
+                run.check(guards.is_ok(p.result) and QM.same(p.result.args[0], A[first]), "R9.5", path, "success=two-consecutive-agreements", where,
+                          "agreement pattern %s: expected Ok(value of rule %d), the driver returns %s" % (pat, first, str(p.result)[:80]))
+        run.ok("R9.5", "patterns", "%s: %d agreement patterns over %d rules decided as the reference (%d Ok, %d Err), %d paths" % (short, 2 ** K, K, want_ok, want_err, len(ps)))
 
 
-def bind_nodes(p):
-    """All Bind nodes of a pattern (generic traversal: tuple/ref/struct sub-patterns)."""
-    if isinstance(p, dict):
-        if p.get("k") == "Bind":
-            yield p
-        for v in p.values():
-            if isinstance(v, (dict, list)):
-                yield from bind_nodes(v)
-    elif isinstance(p, list):
-        for x in p:
-            yield from bind_nodes(x)
+def agrees_lit(l, D, k, T):
+    atom, pol = QM.split(l)
+    return isinstance(atom, sp.Lt) and QM.same(atom.rhs, T) and QM.same(atom.lhs, D[k])
 
 
-INT_TYPES = ("usize", "u8", "u16", "u32", "u64", "i8", "i16", "i32", "i64", "isize")
-
-
-def check_de_stop(F, run):
-    """R9.6 — the stopping rule of the tanh–sinh driver, level by level.
-
-    The loop body is explored path-sensitively once per table level with the *integer* locals (evaluation counter, enumerate index) concrete
-    — they are computed from the actual row lengths of WEIGHTS_DE — and everything else symbolic (the level's sum is the symbol AREA)."""
+def check_de_stop(F, run, tier="quick"):
+    """R9.6 — the stopping rule of the tanh–sinh driver on the paths of the whole driver over a synthetic table with the shipped table's first row
+    lengths (quadmodel).  With I_l, δ_l the reference recursion: Ok(v) only with v = I_l for a level l >= 2 whose change δ_l is exactly zero or whose
+    estimate (δ_l, or δ_l² inside a two-sided window around 2 on ln δ_l / ln δ_(l−1)) is below tol on that path; Err only when no level met that."""
     path = "integrate::integrate_core"
+    table = "integrate::tables::WEIGHTS_DE"
     b = F.fn(path)
     run.analysed(b)
     where = F.loc(b)
-    st, loop = guards.first_loop(b)
-    if loop is None or loop.get("k") != "For":
-        run.broken("R9.6", path, "loop", where, "no loop over the level table")
+    rows = f64fold.table_rows(F.fn(table))
+    L = 5 if tier == "thorough" else 4
+    if len(rows) < L:
+        run.broken("R9.6", path, "table", where, "WEIGHTS_DE has %d levels" % len(rows))
         return
-    rows = f64fold.table_rows(F.fn("integrate::tables::WEIGHTS_DE"))
-    consts = c07.constant_locals(F, b)
-    # integer locals and their values at loop entry
-    int_names = set()
-    for n in walk(b["body"]):
-        if n.get("k") == "LetS":
-            for q in bind_nodes(n["pat"]):
-                if q.get("ty") in INT_TYPES:
-                    int_names.add(q["name"])
-    for q in bind_nodes(loop["pat"]):
-        if q.get("ty") in INT_TYPES:
-            int_names.add(q["name"])
+    lengths = [len(r) for r in rows[:L]]
+    tab = QM.de_table(lengths)
+    I, D = QM.de_reference(tab)
+    T = QM.TOLS
     try:
-        pre = paths.explore(F, b, stop_at=st, interp_cls=GaussLoop)
-    except sym.Unsupported as u:
-        run.broken("R9.6", path, "prefix", F.loc(b, u.node if isinstance(u.node, dict) else None), str(u))
+        ps = QM.explore(F, b, [sp.Symbol("userfn"), T], {table: tab}, limit=3000, seconds=120)
+    except vecint.IndexPanic as e:
+        run.fail("R9.6", path, "panic", where, "abstract execution panics: %s" % e.why)
         return
-    if len(pre) != 1:
-        run.broken("R9.6", path, "prefix", where, "the statements before the level loop branch")
+    except (sym.Unsupported, vecint.Budget) as u:
+        run.broken("R9.6", path, "execution", F.loc(b, u.node if isinstance(getattr(u, "node", None), dict) else None), str(u))
         return
-    ints = {}
-    init = {}
-    for i, nm in pre[0].interp.names.items():
-        v = pre[0].interp.env.get(i)
-        if nm in int_names and getattr(v, "is_Integer", False):
-            ints[nm] = v
-        if nm in ("error_estimate", "current_delta", "integral"):
-            init[nm] = v
-    # which loop-pattern names are the enumerate index / the row
-    pat_names = [nm for _, nm in hir_pat_binds(loop["pat"])]
-    idx_names = [nm for nm in pat_names if nm in int_names]
-    row_names = [nm for nm in pat_names if nm not in int_names]
-    if len(row_names) != 1 or len(idx_names) > 1:
-        run.broken("R9.6", path, "loop-pattern", F.loc(b, loop), "loop pattern binds %s" % pat_names)
-        return
-    A, I, D, E, T = sp.Symbol("AREA", real=True), S("integral"), S("current_delta"), S("error_estimate"), S("tol")
     first_consult = None
-    n_levels = 0
-    for level, row in enumerate(rows):
-        vals = dict(consts)
-        vals.update(ints)
-        vals[row_names[0]] = [(sp.Symbol("w%d" % j, real=True), sp.Symbol("x%d" % j, real=True)) for j in range(len(row))]
-        for nm in idx_names:
-            vals[nm] = sp.Integer(level)
-        try:
-            lps = paths.explore(F, b, setup=c07.preset_all(b, vals), node=loop["body"], interp_cls=GaussLoop)
-        except sym.Unsupported as u:
-            run.broken("R9.6", path, "level=%d" % level, F.loc(b, u.node if isinstance(u.node, dict) else loop), str(u))
-            return
-        n_levels += 1
-        nxt = None
-        consulted = False
-        for p in lps:
-            env = {nm: p.interp.env.get(i) for i, nm in p.interp.names.items()}
-            cur_ints = {nm: env.get(nm) for nm in ints}
-            if nxt is None:
-                nxt = cur_ints
-            elif nxt != cur_ints:
-                run.broken("R9.6", path, "level=%d" % level, F.loc(b, loop), "integer locals differ between the paths of one level: %s vs %s" % (nxt, cur_ints))
-                return
-            # the running integral and the level difference are updated on every path
-            okI = sym.is_zero(env.get("integral") - (I / 2 + A))
-            okD = sym.is_zero(env.get("current_delta") - sp.Abs(A - I / 2))
-            run.check(okI and okD, "R9.6", path, "level-update:level=%d" % level, F.loc(b, loop),
-                      "after level %d: integral = %s, current_delta = %s; expected integral/2 + (level sum) and |level sum − integral/2| (the change of the estimate)"
-                      % (level, env.get("integral"), env.get("current_delta")))
-            if p.pc or isinstance(p.result, sym.Break) or env.get("error_estimate") != E:
-                consulted = True
-                cond = p.cond()
-                ee = env.get("error_estimate")
-                if isinstance(p.result, sym.Break):
-                    # a break must be justified: the new error estimate is below the tolerance (or the change is exactly zero)
-                    good = (ee == 0 and logic.entails(cond, sp.Eq(sp.Abs(A - I / 2), 0))) or logic.entails(cond, sp.Lt(ee, T))
-                    run.check(good, "R9.6", path, "break-justified:level=%d" % level, F.loc(b, loop),
-                              "the level loop is left under [%s] with error_estimate = %s: not implied by `error_estimate < tol` or a zero change" % (cond, ee))
-                dlt = sp.Abs(A - I / 2)
-                forms = [sp.Integer(0), dlt, dlt ** 2]
-                run.check(any(sym.is_zero(ee - f) for f in forms), "R9.6", path, "estimate-form:level=%d" % level, F.loc(b, loop),
-                          "error_estimate becomes %s; expected 0, the last change δ or δ² of the estimate" % ee)
-                if sym.is_zero(ee - dlt ** 2) and dlt != 0:
-                    # squaring is allowed only inside the convergence-trend window on r = ln δ / ln δ_prev
-                    rs = sp.Symbol("r_", real=True)
-                    flat = []
-                    for l in p.pc:
-                        flat += list(l.args) if isinstance(l, sp.And) else [l]
-                    lo = [l for l in flat if isinstance(l, sp.core.relational.Relational) and any(str(f.func) in ("ln", "log") for f in l.atoms(sp.Function))]
-                    win_ok = False
-                    if len(lo) >= 2:
-                        X = lo[0].lhs if lo[0].lhs.free_symbols else lo[0].rhs
-                        num, den = X.as_numer_denom()
-                        shape = (str(num.func) in ("ln", "log") and str(den.func) in ("ln", "log") and num.func == den.func
-                                 and sym.is_zero(num.args[0] - dlt) and den.args[0] == D)
-                        win_ok = shape and logic.entails(sp.And(*[l.subs(X, rs) for l in lo]), sp.And(rs > 1, rs < 3))
-                    run.check(win_ok, "R9.6", path, "square-only-in-trend-window:level=%d" % level, F.loc(b, loop),
-                              "error_estimate = δ² is taken under [%s]: not a two-sided window around 2 on ln δ / ln δ_prev" % cond)
-        if consulted and first_consult is None:
-            first_consult = level
-        ints = nxt or ints
-    run.check(first_consult is not None and first_consult >= 2, "R9.6", path, "first-stop-test-at-level>=2", F.loc(b, loop),
-              "with the shipped table (row lengths %s) the stopping test is first consulted at level %s: the trend ratio ln δ_l / ln δ_(l−1) needs two changes between "
-              "consecutive table levels (δ_0 compares the level-0 sum with the bare centre term), so no earlier than level 2"
-              % ([len(r) for r in rows], first_consult), sample="first level at which the stop test runs: %s" % first_consult)
-    run.check(first_consult is not None and first_consult < len(rows), "R9.6", path, "stop-test-reachable", F.loc(b, loop),
-              "the stopping test is never consulted for any of the %d levels" % len(rows))
-    # after the loop: Ok(integral) iff error_estimate < tol; initial estimate is not below the tolerance
-    tail = peel(b["body"].get("expr") or {})
-    try:
-        fin = paths.explore(F, b, setup=c07.preset_all(b, dict(consts)), node=tail, interp_cls=GaussLoop)
-        for p in fin:
-            if guards.is_ok(p.result):
-                run.check(p.result.args[0] == I and logic.entails(p.cond(), sp.Lt(E, T)), "R9.6", path, "ok-iff-estimate-below-tol", F.loc(b, tail),
-                          "Ok(%s) under [%s]" % (p.result.args[0], p.cond()), sample="Ok(integral) iff error_estimate < tol")
-            else:
-                run.check(guards.is_err(p.result), "R9.6", path, "exhausted-gives-err", F.loc(b, tail), "the fall-through result is %r" % (p.result,))
-    except sym.Unsupported as u:
-        run.broken("R9.6", path, "tail", F.loc(b, tail), str(u))
-    e0 = init.get("error_estimate")
-    run.check(e0 is not None and logic.entails(sp.Gt(T, 0), sp.Ge(e0, T)) , "R9.6", path, "initial-estimate-not-converged", where,
-              "error_estimate starts as %s, which is not >= tol for every positive tol: levels that skip the test could end in Ok" % e0)
-    run.floor("R9.6", path, "levels explored", n_levels, 7, where)
+    n_ok = n_err = 0
+    for p in ps:
+        facts = QM.classify_de(p, D, T)
+        bad = [f for f in facts if f.kind == "unrecognised"]
+        if bad:
+            run.broken("R9.6", path, "literal", where, "a path of the driver branches on %s: not a test on the level changes δ_l, their ratio ln δ_l / ln δ_(l−1) or an estimate against tol" % str(bad[0].lit)[:200])
+            continue
+        tag = "[%s]" % ", ".join(repr(f) for f in facts)
+        stops = [f for f in facts if f.kind in ("zero-change", "below-tol") and f.level is not None]
+        for f in stops:
+            if first_consult is None or f.level < first_consult:
+                first_consult = f.level
+
+        def window_ok(l):
+            lo = [f for f in facts if f.kind == "ratio-above" and f.level == l and f.pol]
+            hi = [f for f in facts if f.kind == "ratio-below" and f.level == l and f.pol]
+            return bool(lo) and bool(hi) and max(f.const for f in lo) >= 1 and min(f.const for f in hi) <= 3
+        for f in facts:
+            if f.kind == "below-tol" and f.form == "delta^2" and f.level is not None:
+                run.check(window_ok(f.level), "R9.6", path, "square-only-in-trend-window:level=%d" % f.level, where,
+                          "the estimate δ² is compared with tol under %s: not inside a two-sided window around 2 on ln δ_l / ln δ_(l−1)" % tag)
+        if guards.is_ok(p.result):
+            n_ok += 1
+            ls = [l for l in range(L) if QM.same(p.result.args[0], I[l])]
+            if not ls:
+                run.fail("R9.6", path, "level-update", where, "Ok(%s) is returned under %s: not the running estimate I_l = I_(l−1)/2 + (level sum) of any level" % (str(p.result.args[0])[:120], tag))
+                continue
+            l = ls[0]
+            just = [f for f in stops if f.level == l and f.pol]
+            run.check(bool(just), "R9.6", path, "break-justified:level=%d" % l, where,
+                      "the driver returns Ok(I_%d) under %s: neither `δ_%d == 0` nor an estimate of level %d below tol holds on that path" % (l, tag, l, l),
+                      sample="Ok(I_l) only under δ_l == 0 or estimate_l < tol")
+            run.check(l >= 2, "R9.6", path, "first-stop-test-at-level>=2", where,
+                      "the driver can stop at level %d: the trend ratio ln δ_l / ln δ_(l−1) needs two changes between consecutive table levels, so no earlier than level 2" % l)
+        elif guards.is_err(p.result):
+            n_err += 1
+            held = [f for f in stops if f.pol]
+            run.check(not held, "R9.6", path, "ok-iff-estimate-below-tol", where, "Err is returned under %s although %r held" % (tag, held[:1]))
+            last = [f for f in facts if f.kind in ("below-tol",) and f.level == L - 1]
+            run.check(bool(last), "R9.6", path, "exhausted-gives-err", where, "Err is returned under %s without the last level's estimate having been compared with tol" % tag)
+        else:
+            run.fail("R9.6", path, "result", where, "a path ends with %r" % (p.result,))
+        # level-update: the changes δ_l the driver tests are those of the reference recursion — implied by every literal being recognised
+    run.check(first_consult is not None and first_consult >= 2, "R9.6", path, "first-stop-test-at-level>=2", where,
+              "with the shipped table (row lengths %s) the stopping test is first consulted at level %s: the trend ratio needs two changes between consecutive table levels, "
+              "so no earlier than level 2" % (lengths, first_consult), sample="first level at which the stop test runs: %s" % first_consult)
+    run.check(first_consult is not None and first_consult < L, "R9.6", path, "stop-test-reachable", where, "the stopping test is never consulted within the first %d levels" % L)
+    run.check(n_ok >= 1 and n_err >= 1, "R9.6", path, "both-outcomes", where, "%d Ok and %d Err paths" % (n_ok, n_err))
+    run.floor("R9.6", path, "paths explored", len(ps), 3, where)
 
 
 def run(F, run, tier):
@@ -484,7 +453,7 @@ def run(F, run, tier):
     check_simpson(F, run, tier)
     check_romberg(F, run, tier)
     check_stop_rule(F, run)
-    check_de_stop(F, run)
+    check_de_stop(F, run, tier)
     run.assumptions += ["the integrand is uninterpreted; exact arithmetic", "error <= C·tol and evaluation counts are numerical: not decided",
                         "adaptive Simpson is explored over all accept/subdivide patterns of bounded depth"]
     expl = ("Guards are established path-sensitively for all eight routines; the affine map and result scaling are extracted from the wrapper closures; adaptive Simpson is "
